@@ -658,6 +658,14 @@ def r9_no_state_between_documents(ctx):
         yield o
 
 
+def r10_shared_time_date_atoms(ctx):
+    """a value that meets its declared type is not reported: the date/time field bounds of the recognisers equal the clock and the calendar (C13.R3 / R4, shared)"""
+    from . import c13
+    for fn in (c13.r3_atoms, c13.r4_lengths):
+        for o in fn(ctx):
+            yield o
+
+
 RULES = [
     Rule('C15.R1', 'reported => result False (path search from every report)', r1_reported_implies_false, floor=15),
     Rule('C15.R2', 'result False => reported (path search to every constant False)', r2_false_implies_reported, floor=11),
@@ -666,6 +674,7 @@ RULES = [
     Rule('C15.R5', 'data element lengths sane; element regexes compile', r5_data, floor=225),
     Rule('C15.R6', 'delegated is_valid calls always run and are and-ed into the result', r6_delegation_always_runs, floor=7),
     Rule('C15.R7', 'DTP03 is validated against the qualifier sent in DTP02 only', r7_dtp_format_from_qualifier, floor=1),
+    Rule('C15.R10', 'shared with C13.R3/R4: date/time field bounds and accepted lengths', r10_shared_time_date_atoms, floor=15),
     Rule('C15.R9', 'shared with C18.R2: the validating modules keep no module/class-level state and cache nothing across calls', r9_no_state_between_documents, floor=8),
     Rule('C15.R8', 'excluded code sets are kept as a list of ids and tested by membership', r8_exclusion_list, floor=2),
 ]
